@@ -685,7 +685,7 @@ def spaces(tier, seed):
                             "setting %s %r, 5 slots: hash block %d of %d of the complete enumeration" % (
                                 s, M.RHYTHM_SETTINGS[s], seed % B, B)))
     else:
-        for s in sorted(M.RHYTHM_SETTINGS):
+        for s in sorted(x for x in M.RHYTHM_SETTINGS if x != "q34"):
             sp.append(Space("rhythm-%s-n5" % s, (lambda s=s: with_configs(M.gen_rhythm(s, 5), cfg_cycle(2))), True,
                             "setting %s %r: all compositions of 5 slots into rest/A/B/chord events with every subset of "
                             "ties; 2 of the 18 (mode, policy) combinations per score, cycled" % (s, M.RHYTHM_SETTINGS[s])))
